@@ -10,7 +10,7 @@ open Proto
     fn f h <body>             register implementation `f` on hook `h` (chain order = order of the `fn` lines)
     read i h | has i h | set i h <val> | del i h | clear
     obs                       dump of caches and active marks
-    flags                     ghost flags  hitLimit sawCycle
+    flags                     ghost flags  hitLimit sawCycle reentered
     finite <val>              `_all_finite`
 
   values:   N  I<int>  B0 B1  F<int> Fnan Finf Fninf  S<n>  T<n> (set)  G<n> (geometry)  C<n> (callable)
@@ -22,7 +22,7 @@ open Proto
 namespace Failure
 
 def NI : Nat := 4
-def NH : Nat := 4
+def NH : Nat := 6
 def NF : Nat := 24
 
 def showF : FKind → String
@@ -167,6 +167,25 @@ def dump (st : St) : String :=
     if st.marks f i then some s!"{f}@{i}" else none
   "cache: " ++ " ; ".intercalate cs ++ " | dict: " ++ " ; ".intercalate ds ++ " | marks: " ++ " ".intercalate ms
 
+/-- The state components are functions; every update wraps one more closure around them.  Between two operations the
+driver re-tabulates them on the finite domain the harness uses (pure performance: the same function on that
+domain; the tables are built strictly, by top-level functions, so that no closure chain survives). -/
+@[noinline] def mkTab (f : Nat → Nat → Option Val) (n m : Nat) : Array (Array (Option Val)) :=
+  ((List.range n).map fun i => ((List.range m).map fun h => f i h).toArray).toArray
+
+@[noinline] def mkTabB (f : Nat → Nat → Bool) (n m : Nat) : Array (Array Bool) :=
+  ((List.range n).map fun i => ((List.range m).map fun h => f i h).toArray).toArray
+
+def tabGet (arr : Array (Array (Option Val))) (i h : Nat) : Option Val := (arr.getD i #[]).getD h none
+def tabGetB (arr : Array (Array Bool)) (i h : Nat) : Bool := (arr.getD i #[]).getD h false
+
+def compact (st : St) : St :=
+  let d := mkTab st.dict NI NH
+  let c := mkTab st.cache NI NH
+  let m := mkTabB st.marks NF NI
+  let r := mkTabB st.reading NI NH
+  { st with dict := tabGet d, cache := tabGet c, marks := tabGetB m, reading := tabGetB r }
+
 def showOut : Out → String
   | .res r => showRes r
   | .bool b => if b then "True" else "False"
@@ -182,7 +201,7 @@ def handle (d : DState) (line : String) : DState × String :=
     | some f, some h, some (b, []) => ({ d with fns := d.fns ++ [(f, h, b)] }, "ok")
     | _, _, _ => (d, "bad-op")
   | ["obs"] => (d, dump d.st)
-  | ["flags"] => (d, s!"{d.st.hitLimit} {d.st.sawCycle}")
+  | ["flags"] => (d, s!"{d.st.hitLimit} {d.st.sawCycle} {d.st.reentered}")
   | "finite" :: rest => match parseVal rest with
     | some (v, []) => (d, if allFinite v then "True" else "False")
     | _ => (d, "bad-op")
@@ -197,7 +216,7 @@ def handle (d : DState) (line : String) : DState × String :=
       | ["clear"] => some .clear
       | _ => none
     match op with
-    | some op => let (o, st') := step d.prog d.fuel d.st op; ({ d with st := st' }, showOut o)
+    | some op => let (o, st') := step d.prog d.fuel d.st op; ({ d with st := compact st' }, showOut o)
     | none => (d, "bad-op")
 
 partial def loop (h : IO.FS.Stream) (d : DState) : IO Unit := do
